@@ -169,16 +169,16 @@ Definition heu_mc_maxvarimp_minpaths (c : cfg) (st : store) (interp : list N) : 
 (** heu_rand: [RAND_FILTERED] = false models the pinned tree (the drawn position indexes the
     filtered list but is used as the variable number, DESIGN.md D2), true the repaired code *)
 Definition heu_rand (filtered : bool) (interp : list N) (draws : list N)
-  : option (nat * N) * list N :=
+  : option (option (nat * N) * list N) :=
   let possible := filter (fun p => negb (is_tv (snd p))) (enum interp) in
   match possible, draws with
-  | [], _ => (None, draws)
+  | [], _ => Some (None, draws)
   | _, u :: u2 :: rest =>
     (* rng.next_u64() % len, then gen_bool(0.5) = (next u64 < 2^63) *)
     let position := N.to_nat (u mod N.of_nat (length possible)) in
     let var := if filtered then fst (nth position possible (0%nat, 0)) else position in
-    (Some (var, b2t (u2 <? 9223372036854775808)), rest)
-  | _, _ => (None, [])       (* stream exhausted: the driver supplies enough draws *)
+    Some (Some (var, b2t (u2 <? 9223372036854775808)), rest)
+  | _, _ => None       (* the supplied prefix of the draw stream is used up: no answer *)
   end.
 
 Definition heu_static (order : list nat) (vals : list bool) (interp : list N) : option (nat * N) :=
@@ -201,13 +201,13 @@ Section NgSearch.
   Variable rand_filtered : bool.
   Variable two_valued_mode : bool.   (* two_val_nogood_channel: the "stability check" is constantly true *)
 
-  Definition run_heuristic (st : store) (s : ngstate) : option (nat * N) * list N :=
+  Definition run_heuristic (st : store) (s : ngstate) : option (option (nat * N) * list N) :=
     match h with
-    | HSimple => (heu_simple (g_cur s), g_draws s)
-    | HMinPathsMaxImp => (heu_mc_minpaths_maxvarimp c st (g_cur s), g_draws s)
-    | HMaxImpMinPaths => (heu_mc_maxvarimp_minpaths c st (g_cur s), g_draws s)
+    | HSimple => Some (heu_simple (g_cur s), g_draws s)
+    | HMinPathsMaxImp => Some (heu_mc_minpaths_maxvarimp c st (g_cur s), g_draws s)
+    | HMaxImpMinPaths => Some (heu_mc_maxvarimp_minpaths c st (g_cur s), g_draws s)
     | HRand => heu_rand rand_filtered (g_cur s) (g_draws s)
-    | HStatic o v => (heu_static o v (g_cur s), g_draws s)
+    | HStatic o v => Some (heu_static o v (g_cur s), g_draws s)
     end.
 
   (** "while let Some((choice, ng)) = stack.pop()": add the popped nogoods until a choice entry *)
@@ -233,13 +233,15 @@ Section NgSearch.
     let '(s1, ok) :=
       if g_choice s then
         match run_heuristic st s with
-        | (Some (var, t), dr) =>
+        | Some (Some (var, t), dr) =>
           let cur' := set_nth (g_cur s) var t in
           (mkNG cur' (g_store s) ((true, ng_of_terms cur') :: g_stack s) (g_cur s :: g_hist s)
                 (g_backtrack s) false (g_out s) dr, true)
-        | (None, dr) => (mkNG (g_cur s) (g_store s) (g_stack s) (g_hist s) true false (g_out s) dr, true)
+        | Some (None, dr) => (mkNG (g_cur s) (g_store s) (g_stack s) (g_hist s) true false (g_out s) dr, true)
+        | None => (s, false)
         end
       else (s, true) in
+    if negb ok then None else
     (* 3. backtrack *)
     let r2 :=
       if g_backtrack s1 then
